@@ -86,8 +86,14 @@ func (i *postingsIterator) Advance(number uint64) (segment.Posting, error) {
 		if err != nil {
 			return nil, err
 		}
-		// close the current term field reader before replacing it with a new one
-		_ = i.Close()
+		// close the current term field reader before replacing it with a new
+		// one. Close() hands its receiver to the snapshot's recycler, and i
+		// itself stays in use (it is overwritten just below), so give the
+		// recycler a separate object owning the old state; otherwise the
+		// iterator in use would also sit in the pool and be reset and reused
+		// by the next PostingsIterator call on this field.
+		old := *i
+		_ = old.Close()
 		*i = *(i2.(*postingsIterator))
 	}
 	segIndex, ldocNum := i.snapshot.segmentIndexAndLocalDocNumFromGlobal(number)
